@@ -1,3 +1,4 @@
+CONSTANT LargeM = {}
 CONSTANT MaxM = 1
 SPECIFICATION TraceSpec
 INVARIANT TraceConsumed
